@@ -401,6 +401,8 @@ def run(chk):
     chk.guard(rule_r7, chk)
     from .. import variants
     chk.guard(variants.apply, chk, "C17-R6", [("irispie.sequentials._simulate", "simulate")])
+    from .. import unused as _unused
+    chk.guard(_unused.apply, chk, "C17-R91")
     from .. import args as _args
     chk.guard(_args.apply, chk, "C17-R90", {'explanatories', 'plans', 'sequentials'}, 1)
     chk.assumptions = [
